@@ -112,11 +112,16 @@ var Divergences atomic.Int64
 
 // ExploreSchedules enumerates all schedules with at most bound preemptions.
 func ExploreSchedules(bound int, maxExec int, bodies func() []func(seam ThreadSeam), visit func(env *Env, s *Sched)) (int, bool, error) {
+	return ExploreSchedulesUntil(bound, maxExec, bodies, visit, nil)
+}
+
+// ExploreSchedulesUntil additionally stops (capped) as soon as stop() reports true.
+func ExploreSchedulesUntil(bound int, maxExec int, bodies func() []func(seam ThreadSeam), visit func(env *Env, s *Sched), stop func() bool) (int, bool, error) {
 	count := 0
 	capped := false
 	var rec func(prefix []int, used int) error
 	rec = func(prefix []int, used int) error {
-		if maxExec > 0 && count >= maxExec {
+		if (maxExec > 0 && count >= maxExec) || (stop != nil && stop()) {
 			capped = true
 			return nil
 		}
